@@ -91,23 +91,6 @@ Proof.
   split; [only_env_tac f2_state | cbn; repeat split; lia].
 Qed.
 
-(* ---- F6: the write loop parked on its own channel.  c.out is full (the write loop does not
-   service it while it is inside sendPending); the body reader of X fails; sendPending resolves X
-   and calls cancelStream -> writeOut on the write loop itself; c.done is open.  X's caller gets its
-   error and returns, but the only receiver of c.out is now waiting to send on it. ---- *)
-Definition f6_trace : list act :=
-  [KSend; KCheckOpen; LSelInX 3; LGoAcqX; LAcqX; LLock; LWriteOk; LGoRefill; EBodyRead true;
-   LGoSelfOut; KRecv; KTakeBack].
-Definition f6_state : state := Eval cbv -[Init.Nat.pred Init.Nat.add] in run_acts eff f6_trace (start TOff 0 cap).
-Theorem write_loop_parked_on_own_queue :
-  reachable f6_state /\ only_env f6_state /\
-  stalled f6_state = false /\ gone f6_state = false /\ done f6_state = false /\
-  wl f6_state = LSelfOut /\ rl f6_state = RRead /\ outq f6_state = cap /\ xc f6_state = KRet.
-Proof.
-  split; [reach_from TOff 0 cap f6_trace|].
-  split; [only_env_tac f6_state | cbn; repeat split; lia].
-Qed.
-
 (* ---- F4: Close is not atomic.  The read loop wins the CAS and is preempted before
    close(c.done); the write loop leaves on a write error, its own c.Close() returns io.EOF at
    once, it drains an empty c.in and exits; X is then sent on c.in, Write's second select still
